@@ -952,6 +952,54 @@ fn main() {
         }
     }
 
+    // family deep-position (after a wave-8 seed: a walker that no longer looked into the owner of a two-level
+    // property chain): a fault at EVERY nested expression position the grammar offers — subscripts under
+    // property chains of depth 1..3, subscripts inside subscripts, arguments inside subscripts, on either
+    // side of an assignment, in conditions, selectors, FOR bounds, built-in arguments. The control (the hole
+    // filled with a plain INTEGER variable) must be accepted, every fault rejected at the statement's row.
+    {
+        let prelude = "TYPE Inner\n  X AS INTEGER\n  S AS STRING * 4\nEND TYPE\nTYPE Mid\n  O AS Inner\n  N AS LONG\nEND TYPE\nTYPE Outer\n  M AS Mid\n  K AS INTEGER\nEND TYPE\nDECLARE FUNCTION Pick% (N%)\nDIM Shapes(1 TO 3) AS Outer\nDIM Plain%(1 TO 3)\nDIM Q AS Outer\nK$ = \"a\"\nI% = 1\n";
+        let epilogue = "END\nFUNCTION Pick% (N%)\n  Pick% = 1\nEND FUNCTION\n";
+        let row = prelude.matches('\n').count() + 1;
+        let holes: [(&str, &str); 15] = [
+            ("chain1", "PRINT Shapes(@).K"),
+            ("chain2", "PRINT Shapes(@).M.N"),
+            ("chain3", "PRINT Shapes(@).M.O.X"),
+            ("chain3-target", "Shapes(@).M.O.X = 1"),
+            ("chain2-target", "Shapes(@).M.N = 1"),
+            ("chain3-both", "Shapes(1).M.O.X = Shapes(@).M.O.X + 1"),
+            ("subscript-in-subscript", "I% = Plain%(Plain%(@))"),
+            ("argument-in-subscript", "PRINT Plain%(Pick%(@))"),
+            ("chain-in-subscript-of-chain", "Q.M.O.X = Shapes(Shapes(@).K).M.O.X"),
+            ("if-condition", "IF Shapes(@).M.N > 0 THEN PRINT 1"),
+            ("while-condition", "WHILE Shapes(@).M.O.X > 5 : WEND"),
+            ("for-bound", "FOR J% = 1 TO Shapes(@).M.N : NEXT"),
+            ("builtin-argument", "PRINT LEN(Shapes(@).M.O.S)"),
+            ("parenthesised", "PRINT (Shapes((@)).M.O.X)"),
+            ("call-argument", "PRINT Pick%(Shapes(@).M.O.X)"),
+        ];
+        let faults: [(&str, &str); 6] = [
+            ("string-to-integer-parameter", "Pick%(K$)"),
+            ("argument-count", "Pick%(1, 2)"),
+            ("len-of-number", "LEN(2)"),
+            ("string-literal", "\"x\""),
+            ("string-function", "CHR$(65)"),
+            ("whole-array", "Plain%()"),
+        ];
+        const ANY: &[&str] = &[
+            "TypeMismatch", "ArgumentTypeMismatch", "ArgumentCountMismatch", "VariableRequired", "ArrayNotDefined",
+            "FunctionNeedsArguments", "InvalidConstant", "ElementNotDefined",
+        ];
+        for (hname, h) in holes.iter() {
+            let control = format!("{}{}\n{}", prelude, h.replace('@', "I%"), epilogue);
+            cases.push(Case { text: control, model_req: None, family: "deep-position(control)".into(), pos: hname.to_string(), expect: Expect::Exact("ok", 0), renamed_text: None, renamed_req: None });
+            for (fname, f) in faults.iter() {
+                let text = format!("{}{}\n{}", prelude, h.replace('@', f), epilogue);
+                cases.push(Case { text, model_req: None, family: format!("deep-position({})", fname), pos: hname.to_string(), expect: Expect::AnyOf(ANY, vec![row]), renamed_text: None, renamed_req: None });
+            }
+        }
+    }
+
     // model answers in one batch
     // requests: one per case inside the fragment, then the renamed copies
     let mut reqs: Vec<String> = vec![];
@@ -1004,6 +1052,11 @@ fn main() {
                     }
                 } else {
                     rep.bump("generated-program-rejected");
+                }
+            }
+            Expect::Exact("ok", _) => {
+                if real != "ok" {
+                    rep.fail(Failure { kind: Kind::ModelVsImpl, signature: format!("harness:control-rejected:{}", c.pos), input: c.text.clone(), implementation: real.clone(), expected: "ok".into(), note: "the fault-free control of a deep-position template must be accepted (otherwise the family proves nothing)".into() });
                 }
             }
             Expect::Exact(variant, row) => {
